@@ -33,9 +33,11 @@ package registry
 //@ ghost func RtClaim(rt *registry.Runtime) staking.StakeClaim { return ufr[staking.StakeClaim]("claimForRuntime", rt.ID) }
 
 //@ func Application.registerRuntime
-//@   props C17
+//@   props C17 C08
 //@   requires app != nil && ctx != nil && state != nil && rt != nil
 //@   precall api\.MessageDispatcher\)\.Publish$ :: api.GPublishes != old(api.GPublishes) || (defined(stakeParams) && stakeParams != nil && (registry.RtHasAddr(rt) && !stakeParams.DebugBypassStake ==> stakingState.GClaim[registry.RtAddr(rt)][RtClaim(rt)] && (existingRt != nil && registry.RtHasAddr(existingRt) && registry.RtAddr(existingRt) != registry.RtAddr(rt) ==> !stakingState.GClaim[registry.RtAddr(existingRt)][RtClaim(rt)])))
+//@   precall registry/state\.MutableState\)\.(SetRuntime|SetRuntimeOwner|RemoveRuntimeOwner)$ :: api.GPublishes > old(api.GPublishes) && err == nil
+//@   note (C08) the registry state handed in by the caller is bound to the tree OUTSIDE this handler's transaction context, so what is written through it survives a failing transaction: the runtime descriptor and the owner index are written only after the last check that can reject the registration - after the other applications were notified (MessageRuntimeUpdated published) without an error
 //@   note when the registration is announced to the other applications (first message published), the runtime's stake claim is recorded on the account that now owns the runtime and, if the owning account changed, no longer on the previous one: the recorded claims are exactly those implied by the registered runtimes
 
 //@ func Application.unfreezeNode
